@@ -46,7 +46,7 @@ def make_system(rng, ncomp=None, small_targets=True):
         if rng.random() < 0.35 and i > 0:
             mols.append(MolAst([gen.plain_token(solvents[i])], arch="small"))
         else:
-            arch = rng.choice(["homo", "endinit", "random", "stepgrowth", "alternating", "star", "graft", "hyper", "lists", "block"])
+            arch = rng.choice(["homo", "endinit", "random", "stepgrowth", "alternating", "star", "graft", "hyper", "lists", "block", "comb"])
             mols.append(gen.make_molecule(rng, arch, small=True, families=["gauss", "uniform", "poisson", "log_normal"], mean_units=rng.choice([1.5, 3, 5])))
     return SysAst(mols)
 
